@@ -402,7 +402,16 @@ def history_programs(dev, same_name=False):
             {"op": "distribute", "src": 1, "col": 0, "dst": 3, "dw": L([(0, 1), (0, 2)]), "vol": 3, "label": "trough to its namesake"},
             {"op": "transfer", "src": 1, "sw": L([(0, 0)]), "dst": 3, "dw": L([(1, 0)]), "vols": S(12), "label": "split", "wash": 1},
         ]
-        return [h]
+        # ... and two namesakes of equal geometry that hold the very same volumes once the transfer is done
+        lw2 = [gen.mk_plate("replicate", 2, 2, 0, 30, [10, 10, 10, 10]), gen.mk_trough("trough", 4, 3, 2, 60, [50, 40, 0]), gen.mk_plate("replicate", 2, 2, 0, 30, [0, 0, 0, 0])]
+        h2 = _hdr("history/same-name-same-volumes", dev, lw2, wlmax=5, flags={"comp": False, "norm": False, "fullhist": True, "records": False, "robot": False})
+        h2["ops"] = [
+            {"op": "add", "lw": 0, "wells": L([(0, 0)]), "vols": S(0), "label": "prepared"},
+            {"op": "transfer", "src": 0, "sw": L([(0, 0), (1, 0), (0, 1), (1, 1)]), "dst": 2, "dw": L([(0, 0), (1, 0), (0, 1), (1, 1)]), "vols": S(5),
+             "label": "split every well half and half", "wash": 1},
+            {"op": "transfer", "src": 0, "sw": L([(0, 0)]), "dst": 2, "dw": L([(0, 0)]), "vols": S(0), "label": "nothing", "wash": 1},
+        ]
+        return [h, h2]
     ops = [
         {"op": "add", "lw": P, "wells": L([(0, 1), (1, 1)]), "vols": L([3, 4]), "label": "added"},
         {"op": "remove", "lw": P, "wells": L([(0, 1)]), "vols": S(1), "label": None},
@@ -463,6 +472,12 @@ def base_programs():
 def split_programs(dev):
     """Transfers around multiples of max_volume, non-integer microlitre max_volume, auto_split on/off (C06)."""
     progs = []
+    # more than 7158278 microlitres (the largest volume a single record can carry) in one automatically split transfer
+    big = [gen.mk_plate("tank", 1, 2, 0, 20000, [16000, 0]), gen.mk_trough("vat", 2, 1, 0, 20000, [16000])]
+    h = _hdr("split/beyond-the-record-limit", dev, big, wlmax=900, unit=Fraction(2**10), flags={"comp": False, "norm": False, "records": False, "robot": False})
+    h["ops"] = [{"op": "transfer", "src": 1, "sw": L([(0, 0)]), "dst": 0, "dw": L([(0, 1)]), "vols": S(7200), "label": "7.4 litres in steps of 0.9 litres", "wash": "reuse"},
+                {"op": "transfer", "src": 1, "sw": L([(1, 0)]), "dst": 0, "dw": L([(0, 1)]), "vols": S(6991), "label": "just above the limit", "wash": "reuse"}]
+    progs.append(h)
     P, T = 0, 1
 
     def lw(maxv):
